@@ -74,6 +74,13 @@ type encEmb struct {
 	Extra string `class:"secret"`
 }
 
+// encLead holds a struct BY VALUE as its first field: the field and its parent start at the same address.
+type encLead struct {
+	Head encLeaf
+	Tail string `class:"secret"`
+	Mid  encLeaf
+}
+
 // encOpaque is a value type whose state is unexported (like netip.Addr or big.Int): reflection
 // cannot copy it field by field, so its owner registers a copier with copystructure, which is
 // the library the filter copies events with.
@@ -140,6 +147,12 @@ func (t encTagMap) Tags() ([]encrypt.PointerTag, error) {
 		{Pointer: "/absent", Classification: encrypt.SecretClassification},
 	}, nil
 }
+
+// encTagMapNamed is a Taggable map whose keys are of a NAMED string type (type-safe attribute names).
+type encAttr string
+type encTagMapNamed map[encAttr]interface{}
+
+func (t encTagMapNamed) Tags() ([]encrypt.PointerTag, error) { return encTagMap(nil).Tags() }
 
 var tagMapTags = map[string]string{"secret-redact": "secret,redact", "sens-encrypt": "sensitive,encrypt", "sens-default": "sensitive", "secret-hmac": "secret,hmac-sha256", "pub": "public"}
 
@@ -591,6 +604,17 @@ func (g *encGen) tagMap(where string) encTagMap {
 	return m
 }
 
+func (g *encGen) tagMapNamed(where string) encTagMapNamed {
+	m := encTagMapNamed{}
+	for k, v := range g.tagMap(where) {
+		m[encAttr(k)] = v
+	}
+	if g.want() {
+		m["nested"] = map[encAttr]interface{}{"in": g.canary("redact", where+"{nested}{in}")}
+	}
+	return m
+}
+
 func (g *encGen) tagStruct(where string) *encTagStruct {
 	t := &encTagStruct{Attrs: map[string]interface{}{}}
 	if g.want() {
@@ -941,6 +965,10 @@ func (g *encGen) payload(kind int, depth int) (interface{}, string) {
 		return g.recordPublic(), "*struct(record,public)"
 	case 21:
 		return g.recordProtected(), "*struct(record,protected)"
+	case 28:
+		return g.tagMapNamed("ntagmap"), "taggable-map(named-string-keys)"
+	case 27:
+		return &encLead{Head: g.leaf("*lead.Head"), Tail: g.canary(g.treatFor("secret", true), "*lead.Tail"), Mid: g.leaf("*lead.Mid")}, "*struct(leading-struct-by-value)"
 	case 26:
 		return &encShallow{Key: []byte(g.canary(g.treatFor("secret", true), "*shallow.Key")), Blob: []byte(g.canary(g.treatFor("", false), "*shallow.Blob")),
 			Pub: []byte(g.canary("keep", "*shallow.Pub")), Name: g.canary(g.treatFor("sensitive", true), "*shallow.Name")}, "*struct(shallow-copied-bytes)"
@@ -1293,6 +1321,12 @@ func runEncrypt(rc *RunCtx, prop string) {
 	versions := []*keyVersion{kv}
 	cur := kv
 	nEvents := 1 + tp.Choose(3, "nevents")
+	// C16: in some runs every event carries per-event key material under one and the same event id
+	recurring := prop == "C16" && tp.Choose(6, "recurring-event-id") == 0
+	if recurring {
+		nEvents += 2
+		simrt.Probe("encrypt.recurring-event-id")
+	}
 	var descs []string
 	sim.Spawn("encrypt-client", func() {
 		ctx := context.Background()
@@ -1368,11 +1402,14 @@ func runEncrypt(rc *RunCtx, prop string) {
 			d := &drawRec{tape: tp}
 			fill := []int{15, 40, 80}[tp.Choose(3, "fill")]
 			g := &encGen{d: d, exp: map[string]*leafExp{}, overrides: overrides, fill: fill, withIgnored: withIgnored}
-			kind := tp.Choose(27, "kind")
+			kind := tp.Choose(29, "kind")
 			depth := tp.Choose(3, "depth")
 			var payload interface{}
 			var top string
 			useInfo := (prop == "C16" || prop == "C09" || (prop == "C10" && allNone)) && tp.Choose(4, "eventinfo") == 0
+			if recurring {
+				useInfo = true
+			}
 			badTag := prop == "C09" && tp.Choose(12, "badtag") == 0
 			var info *encWithInfo
 			switch {
@@ -1382,6 +1419,11 @@ func runEncrypt(rc *RunCtx, prop string) {
 				info = &encWithInfo{encLeaf: g.leaf("*withinfo"), evID: fmt.Sprintf("ev-%d", i)}
 				// (an event id is an opaque string: white space around it belongs to it and to the derived key)
 				info.evID = []string{"", "", "", " ", "\t"}[tp.Choose(5, "evid-prefix")] + info.evID + []string{"", "", " ", "\n", "\u00a0"}[tp.Choose(5, "evid-suffix")]
+				if recurring {
+					// the same id again (a re-delivery, a second record about one request): the key is derived
+					// from the id AND from the wrapper in force now
+					info.evID = "ev-recurring"
+				}
 				if d.next(2) == 0 {
 					info.Body = g.outer("*withinfo.Body", 1)
 				}
